@@ -34,6 +34,11 @@ FUNCS = dict(MOVEMENT_MAP)
 FUNCS["above"] = movement.above
 FUNCS["below"] = movement.below
 ALLMAP = {**MOVEMENT_MAP, **PATTERN_MAP}
+# documented analysis names -> the function they must stand for, taken from the modules by attribute (not from the maps under test)
+from hexital.analysis import patterns as _pt  # noqa: E402
+EXPECTED = {name: getattr(movement, name) for name in ("cross", "crossover", "crossunder", "falling", "highest", "highestbar", "lowest", "lowestbar",
+                                                        "mean_falling", "mean_rising", "negative", "positive", "rising", "value_range")}
+EXPECTED.update({"doji": _pt.doji, "dojistar": _pt.dojistar, "hammer": _pt.hammer, "inv_hammer": _pt.inverted_hammer, "inverted_hammer": _pt.inverted_hammer})
 LENGTHS = [1, 2, 3, 4, 7, 30]
 LOOKBACKS = [None, 1, 3, 12]
 NAMES = ["A", "B", "close", "Z"]
@@ -101,7 +106,7 @@ def run_case(case):
     stats = {"list_lengths": [n]}
     viol = []
     sink = ReadSink()
-    allf = {**FUNCS, **PATTERN_MAP}
+    allf = {**{k: EXPECTED.get(k, v) for k, v in FUNCS.items()}, **{k: EXPECTED.get(k, v) for k, v in PATTERN_MAP.items()}}
 
     def V(monitor, sig, detail):
         if len(viol) < 4 and sig not in [v["sig"] for v in viol]:
@@ -152,8 +157,8 @@ def run_case(case):
                 V("exception", f"C16|raises-amorph|{fname}|{type(e).__name__}", f"Amorph({fname}, {kw}) on {n} candles: {e!r}")
                 continue
             stats["amorph_columns_compared"] = stats.get("amorph_columns_compared", 0) + 1
-            key = next((k for k, v in ALLMAP.items() if v is f), None)
-            if key is not None and fname not in ("above", "below"):
+            keys = [k for k, v in EXPECTED.items() if v is f and k in ALLMAP]
+            for key in keys:
                 try:
                     args = {k: v for k, v in kw.items() if v is not None}
                     hx = Hexital("h", build(case), [{"analysis": key, **({"args": args} if args else {})}])
@@ -161,8 +166,7 @@ def run_case(case):
                     hcol = hx.reading_as_list(batch.name)
                     stats["dict_wrapper_columns_compared"] = stats.get("dict_wrapper_columns_compared", 0) + 1
                     if not same(hcol, bcol):
-                        i = next(i for i in range(n) if not same(hcol[i], bcol[i]))
-                        V("dict-wrapper", f"C16|dict-wrapper|{fname}", f"Hexital dict form {{'analysis': {key!r}, 'args': {args}}} candle {i}/{n}: {hcol[i]!r} vs Amorph {bcol[i]!r}")
+                        V("dict-wrapper", f"C16|dict-wrapper|{key}", f"Hexital dict form {{'analysis': {key!r}, 'args': {args}}} column (read as {batch.name!r}) differs from the documented function {f.__name__}: {short(hcol[:3], 80)}.. vs {short(bcol[:3], 80)}..")
                 except Exception as e:
                     V("exception", f"C16|raises-dict-wrapper|{fname}|{type(e).__name__}", f"Hexital dict form for {key} {kw}: {e!r}")
             if not same(bcol, lcol):
